@@ -104,11 +104,38 @@ def jsv(args, timeout=3600, stdin=None, seed_offset=0):
 
 # --------------------------------------------------------------------------- TLC
 
-def _spec_digest():
+_MOD_FILES = None
+
+
+def _module_files():
+    global _MOD_FILES
+    if _MOD_FILES is None:
+        _MOD_FILES = {os.path.basename(f)[:-4]: f for f in glob.glob(os.path.join(SPEC, '**', '*.tla'), recursive=True)}
+    return _MOD_FILES
+
+
+def _closure(text, seen):
+    """specification modules reachable from `text` through EXTENDS / INSTANCE"""
+    files = _module_files()
+    names = []
+    for m in re.finditer(r'^\s*EXTENDS\s+([^\n]+)', text, re.M):
+        names += [x.strip() for x in m.group(1).split(',')]
+    names += re.findall(r'INSTANCE\s+(\w+)', text)
+    for n in names:
+        if n in files and n not in seen:
+            seen.add(n)
+            _closure(open(files[n]).read(), seen)
+    return seen
+
+
+def _spec_digest(module_text=None):
+    """digest of the specification modules a generated instance depends on (all of them if unknown)"""
     h = hashlib.sha256()
-    for f in sorted(glob.glob(os.path.join(SPEC, '**', '*.tla'), recursive=True)):
-        h.update(f.encode())
-        h.update(open(f, 'rb').read())
+    files = _module_files()
+    names = sorted(_closure(module_text, set())) if module_text else sorted(files)
+    for n in names:
+        h.update(n.encode())
+        h.update(open(files[n], 'rb').read())
     return h
 
 
@@ -148,7 +175,7 @@ def tlc(name, module_text, cfg_text, workers=8, timeout=1200, heap='8g', cache=T
     modname = m.group(1)
     key = None
     if cache and env is None:
-        h = _spec_digest()
+        h = _spec_digest(module_text)
         h.update(module_text.encode())
         h.update(cfg_text.encode())
         h.update(repr((props, simulate, coverage, depth)).encode())
